@@ -34,9 +34,12 @@ def evaluate_rows(ctx, res, worst):
     n_eval = pm["nbins"] * res["LP"]
     m_res = pm["res"] / lim
     m_gain = abs(pm["gain_db"]) / res["class_db"]
-    worst["residual/2^(1-bits)"] = max(worst.get("residual/2^(1-bits)", 0), m_res)
-    worst["gain_error/class"] = max(worst.get("gain_error/class", 0), m_gain)
-    key = "gain_db_class_" + S.ROLL_NAME[res["rolloff"]]
+    fl = res.get("flags", {})
+    kr = "residual/2^(1-bits)" + (" [F-PH1 / F-SG2 signature]" if fl.get("F-PH1") or fl.get("F-SG2") else "")
+    kg = "gain_error/class" + (" [F-SG1 signature]" if fl.get("F-SG1") else "")
+    worst[kr] = max(worst.get(kr, 0), m_res)
+    worst[kg] = max(worst.get(kg, 0), m_gain)
+    key = "gain_db_class_" + S.ROLL_NAME[res["rolloff"]] + (" [F-SG1 signature]" if fl.get("F-SG1") else "")
     worst[key] = max(worst.get(key, 0), abs(pm["gain_db"]))
     if res["rolloff"] == 2 and res["linear"]:
         worst["none_flatness(linear phase)/2^(1-bits)"] = max(worst.get("none_flatness(linear phase)/2^(1-bits)", 0),
@@ -45,7 +48,11 @@ def evaluate_rows(ctx, res, worst):
     if pm["nfft"] < 16 * res["W"]:
         ctx.violation("frequency grid of %s thinner than 16 points per side-lobe period" % res["label"],
                       {"config": res["cfg"], "nfft": pm["nfft"], "row_length": res["W"]}, no_input=True)
-    if m_res > 1:
+    fid = S.known_excess(res, "res", m_res, level=pm["res"])
+    if fid:
+        ctx.known(fid, S.known_text(fid, res, "tone at %.6f x input Nyquist leaves max_r|c_r - G| = %.3g = %.2f x 2^(1-bits)"
+                                    % (pm["res_w"] / math.pi, pm["res"], m_res)))
+    elif m_res > 1:
         t = confirm_pass_tone(res["cfg"], pm["res_w"])
         ok = t.get("resid", 0) > lim
         ctx.violation("C01 residual: %s: tone at %.6f x input Nyquist leaves max_r|c_r - G| = %.3g = %.2f x 2^(1-bits) "
@@ -55,14 +62,19 @@ def evaluate_rows(ctx, res, worst):
                        "measured_rows_level": pm["res"], "measured_end_to_end_residual": t.get("resid"), "bound": lim,
                        "replay": "harness/signal/run.c " + " ".join(S.cfg_args(res["cfg"])) + "  < sine of that frequency, amplitude 1.0 (float64)"},
                       no_input=not ok)
-    if m_gain > 1:
+    fid = S.known_excess(res, "gain", m_gain) if pm["gain_db"] < 0 and pm["gain_w"] >= 0.8 * pm["wp"] else None
+    if fid:
+        ctx.known(fid, S.known_text(fid, res, "pass-band gain %.5f dB at %.6f x input Nyquist (pass-band end %.6f), class %s <= %.3g dB"
+                                    % (pm["gain_db"], pm["gain_w"] / math.pi, pm["wp"] / math.pi, S.ROLL_NAME[res["rolloff"]], res["class_db"])))
+    elif m_gain > 1:
         t = confirm_pass_tone(res["cfg"], pm["gain_w"])
         ok = abs(t.get("gain_db", 0)) > res["class_db"]
         ctx.violation("C01 gain: %s: pass-band gain %.5f dB at %.6f x input Nyquist is outside the roll-off class %s (<= %.3g dB); "
                       "end to end: %.5f dB" % (res["label"], pm["gain_db"], pm["gain_w"] / math.pi, S.ROLL_NAME[res["rolloff"]],
                                                res["class_db"], t.get("gain_db", float("nan"))),
                       {"config": res["cfg"], "plan": res["plan"], "engine": res["engine"], "frequency_x_input_nyquist": pm["gain_w"] / math.pi,
-                       "measured_gain_db": pm["gain_db"], "measured_end_to_end_gain_db": t.get("gain_db"), "bound_db": res["class_db"]},
+                       "measured_gain_db": pm["gain_db"], "measured_end_to_end_gain_db": t.get("gain_db"), "bound_db": res["class_db"],
+                       "replay": "harness/signal/run.c " + " ".join(S.cfg_args(res["cfg"])) + "  < sine of that frequency, amplitude 1.0 (float64)"},
                       no_input=not ok)
     return n_eval
 
@@ -84,23 +96,37 @@ def run(ctx):
     quick = ctx.quick
 
     # ---------------- rows of the real resampler: the measured hypotheses of Soxr.C01.PassBand
-    if quick:
-        cfgs = list(S.QUICK_CORE) + S.pick_rational(rng, 4, exclude=S.QUICK_CORE)
-        cap = 700
-    else:
-        cfgs = S.all_rational() + S.pick_rational(rng, 300)
-        cap = 2000
-    results = S.pool_map(S.job_rows, [(c, cap, 3e6 if quick else 8e6) for c in cfgs])
+    # covering set: one member of every (plan class, knob) pair the REAL planner produces on a seeded pool (ratio x recipe x engine x
+    # knob: phase_response 0/25/75/100 by field or recipe flag, stopband_begin < 1 and > 1, passband_end, roll-off class, fractional
+    # precision), cheap implementation periods preferred, members rotating with the seed; plus the fixed core (tightest margins)
+    sel, st = S.cover(rng, S.KNOBS_SPECTRAL, S.COVER_RATIOS, per_ratio=2 if quick else 6, members=3, max_period=64 if quick else 400)
+    ctx.cov["covering_pool"] = st
+    members = [[c] for c in S.QUICK_CORE] + [e["members"] for e in sel]
+    cap = 700 if quick else 2000
+    if not quick:
+        members += [[c] for c in S.all_rational() + S.pick_rational(rng, 300)]
+    results = S.pool_map(S.job_rows_first, [(m, cap, 3e6 if quick else 8e6) for m in members])
     worst, n_eval, measured, sigs = {}, 0, 0, set()
+    classes_hit, engines_hit, knobs_hit = set(), set(), {}
+    f1_seen = []
+    for e, r in zip([None] * len(S.QUICK_CORE) + sel, results[:len(S.QUICK_CORE) + len(sel)]):
+        if e is not None and "pass" in r:
+            knobs_hit[e["knob"]] = knobs_hit.get(e["knob"], 0) + 1
+    ctx.cov["row_configurations_per_knob"] = knobs_hit
     for r in results:
         if "error" in r:
             ctx.violation("measurement crashed on %s: %s" % (r["label"], r["error"][-600:]), {"config": r["cfg"], "traceback": r["error"]}, no_input=True)
             continue
         if "skipped" in r:
             ctx.hist("skipped", r["skipped"].split(":")[0][:60])
+            if r.get("f1"):
+                f1_seen.append(r)
             continue
         measured += 1
         sigs.add((r["engine"], r["plan"], r["rolloff"], r["bits"]))
+        classes_hit.add(r["pclass"])
+        engines_hit.add(r["engine"])
+        ctx.hist("rows_plan_class", r["pclass"])
         ctx.hist("engine", r["engine"])
         ctx.hist("implementation_period_ne_reduced", int((r["LP"], r["MP"]) != (r["L"], r["M"])))
         n_eval += evaluate_rows(ctx, r, worst)
@@ -120,6 +146,14 @@ def run(ctx):
         if rng.below(6) == 0:
             kw["ch"], kw["chan"] = 2, rng.below(2)
         jobs.append((c, kw))
+    # every interpolated / irrational planner path x knob, two tones each: a random one and one in the last 3 % of the pass-band
+    sel_f, st_f = S.cover(rng, ["base", "ph*", "band*", "roll", "prec"], S.COVER_IRRATIONAL + S.RATIOS_ARB, per_ratio=2 if quick else 6, members=1,
+                          max_period=1 << 30, rtflags=(None, None, 2, 3))
+    ctx.cov["covering_pool_fits"] = st_f
+    for e in sel_f:
+        c = e["members"][0]
+        for frac in (rng.uniform(0.02, 0.97), rng.uniform(0.97, 0.9995)):
+            jobs.append((c, dict(kind="pass", amp=0.95, phase0=rng.uniform(0, 6.28), nfit=8000 if quick else 12000, _frac=frac)))
     fits = S.pool_map(job_fit, jobs)
     n_fits = 0
     for t in fits:
@@ -128,20 +162,34 @@ def run(ctx):
             continue
         if "skipped" in t:
             ctx.hist("fit_skipped", t["skipped"][:50])
+            if t.get("f1"):
+                f1_seen.append(t)
             continue
         n_fits += 1
         lim, cls, dt_allow = tone_bounds(t, t["cfg"])
-        worst["fit_residual/2^(1-bits)"] = max(worst.get("fit_residual/2^(1-bits)", 0), t["resid"] / lim)
-        worst["fit_gain_error/class"] = max(worst.get("fit_gain_error/class", 0), abs(t["gain_db"]) / cls)
+        fl = t.get("flags", {})
+        kr = "fit_residual/2^(1-bits)" + (" [F-PH1 / F-SG2 signature]" if fl.get("F-PH1") or fl.get("F-SG2") else "")
+        kg = "fit_gain_error/class" + (" [F-SG1 signature]" if fl.get("F-SG1") else "")
+        worst[kr] = max(worst.get(kr, 0), t["resid"] / lim)
+        worst[kg] = max(worst.get(kg, 0), abs(t["gain_db"]) / cls)
         ctx.hist("fit_engine", t["engine"])
-        ctx.hist("fit_stage_kinds", t["kinds"])
+        ctx.hist("fit_plan_class", t["pclass"])
+        classes_hit.add(t["pclass"])
+        engines_hit.add(t["engine"])
         sigs.add((t["engine"], t["plan"], t["rolloff"], t["bits"]))
         rep = {"config": t["cfg"], "plan": t["plan"], "engine": t["engine"], "frequency_x_input_nyquist": t["f_in"], "amplitude": 0.95,
-               "fit_window_output_frames": t["n_fit"], "horizon_output_frames": t["horizon"]}
-        if t["resid"] > lim:
+               "fit_window_output_frames": t["n_fit"], "horizon_output_frames": t["horizon"],
+               "replay": "harness/signal/run.c " + " ".join(S.cfg_args(t["cfg"])) + "  < sine of that frequency, amplitude 0.95 (float64)"}
+        fid = S.known_excess(t, "res", t["resid"] / lim, level=t["resid"])
+        if fid:
+            ctx.known(fid, S.known_text(fid, t, "tone at %.6f x input Nyquist: fit residual %.3g = %.2f x 2^(1-bits)" % (t["f_in"], t["resid"], t["resid"] / lim)))
+        elif t["resid"] > lim:
             ctx.violation("C01 residual (sine fit): %s: tone at %.6f x input Nyquist: residual peak %.3g > 2^(1-bits) = %.3g"
                           % (t["label"], t["f_in"], t["resid"], lim), dict(rep, measured_level=t["resid"], bound=lim))
-        if abs(t["gain_db"]) > cls:
+        fid = S.known_excess(t, "gain", abs(t["gain_db"]) / cls) if t["gain_db"] < 0 else None
+        if fid:
+            ctx.known(fid, S.known_text(fid, t, "tone at %.6f x input Nyquist: gain %.5f dB, class <= %.3g dB" % (t["f_in"], t["gain_db"], cls)))
+        elif abs(t["gain_db"]) > cls:
             ctx.violation("C01 gain (sine fit): %s: tone at %.6f x input Nyquist: gain %.5f dB outside the class (<= %.3g dB)"
                           % (t["label"], t["f_in"], t["gain_db"], cls), dict(rep, measured_gain_db=t["gain_db"], bound_db=cls))
         if abs(t["phase"] - 50) < 1e-9:
@@ -173,6 +221,18 @@ def run(ctx):
                           "(bound: the output format's own resolution %.3g)" % (t["label"], t["itype"], t["otype"], t["diff"], t["bound"]),
                           {"config": t["cfg"], "itype": t["itype"], "otype": t["otype"], "signal_seed": t["seed"], "measured_level": t["diff"], "bound": t["bound"]})
     ctx.count("format_differentials", n_fmt)
+
+    # ---------------- planner paths hit; known finding F1 probed on members the pool produced
+    miss = S.missing_classes(classes_hit, S.REQUIRED_CLASSES + S.REQUIRED_ORDERS) + ["engine " + e for e in S.REQUIRED_ENGINES if e not in engines_hit]
+    ctx.cov["plan_classes_hit"] = len(classes_hit)
+    ctx.cov["required_classes_missing"] = miss
+    for name in miss:
+        ctx.violation("coverage: no measured configuration of this run went through the planner path `%s` (the covering pool no longer produces it)"
+                      % name, {"missing_class": name, "classes_hit": sorted(classes_hit)}, no_input=True)
+    ctx.count("f1_signature_configurations_set_aside", len(f1_seen))
+    for txt in S.pool_map(S.probe_f1, [r["cfg"] for r in f1_seen[:4]]):
+        if txt:
+            ctx.known("F1", txt)
 
     ctx.cov["worst_margins"] = {k: round(v, 5) for k, v in sorted(worst.items())}
     ctx.cov["worst_margins_note"] = "ratios measured/bound (< 1 holds); gain_db_class_* are the largest |gain error| in dB per roll-off class"
